@@ -579,8 +579,132 @@ pub fn reentry(rng: &mut StdRng) -> Program {
     }
 }
 
+/// Jumps that aim at the very edges of the code: a JUMPDEST that is the last byte of the code, and a 0x5b
+/// byte inside a trailing PUSH whose immediate is cut short by the end of the code (push data, not a
+/// destination, however it is decoded).
+pub fn code_edges(rng: &mut StdRng) -> Program {
+    let conditional = rng.gen_bool(0.6);
+    let mut code: Vec<u8> = Vec::new();
+    if conditional {
+        code.push(CALLDATASIZE);
+    }
+    let at = code.len();
+    code.extend([0x61, 0, 0, if conditional { JUMPI } else { JUMP }]);
+    // what follows the jump: live after a JUMPI, dead after a JUMP
+    code.extend([0x60, 0x01, 0x60, 0x0d, SSTORE]);
+    let fam;
+    let target;
+    match rng.gen_range(0..3) {
+        0 => {
+            // the destination is the last byte of the code
+            code.push(STOP);
+            for _ in 0..rng.gen_range(0..3) {
+                code.extend([0x60, 0x01, 0x50]);
+            }
+            target = code.len();
+            code.push(0x5b);
+            fam = "code-edges[last-byte-jumpdest]";
+        }
+        1 => {
+            // ... or the last but one, followed by a single instruction
+            code.push(STOP);
+            target = code.len();
+            code.extend([0x5b, *[STOP, 0x5b, 0x36].choose(rng).unwrap()]);
+            fam = "code-edges[jumpdest-before-last]";
+        }
+        _ => {
+            // a 0x5b inside a trailing, truncated PUSH
+            code.push(STOP);
+            let n = rng.gen_range(2..=32u8);
+            let present = rng.gen_range(1..n) as usize;
+            code.push(0x5f + n);
+            let hit = rng.gen_range(0..present);
+            target = code.len() + hit;
+            for k in 0..present {
+                code.push(if k == hit || rng.gen_bool(0.5) { 0x5b } else { 0x00 });
+            }
+            fam = "code-edges[truncated-push-data]";
+        }
+    }
+    code[at + 1] = (target >> 8) as u8;
+    code[at + 2] = target as u8;
+    Program {
+        family: fam.to_string(),
+        code,
+    }
+}
+
+/// Every opcode that does not transfer control, on a stack that holds enough small constants: what each
+/// leaves on the stack is what the EVM's table says (Opcodes.tla), or under- and overflow detection is off.
+fn stack_effect_pool() -> Vec<u8> {
+    let mut pool: Vec<u8> = Vec::new();
+    pool.extend(0x01..=0x0b);
+    pool.extend(0x10..=0x1d);
+    pool.push(0x20);
+    pool.extend(0x30..=0x48);
+    pool.extend(0x50..=0x55);
+    pool.extend([0x58, 0x59, 0x5a, 0x5b, 0x5f]);
+    pool.extend(0x80..=0x9f);
+    pool.extend(0xa0..=0xa4);
+    pool.extend([0xf0, 0xf1, 0xf2, 0xf4, 0xf5, 0xfa]);
+    pool
+}
+
+/// The same for EVERY such opcode, a few per program, each on a stack of sixteen small constants.
+pub fn stack_effects_all() -> Vec<Program> {
+    stack_effect_pool()
+        .chunks(5)
+        .map(|chunk| {
+            let mut items = Vec::new();
+            for op in chunk {
+                for k in 0..16u8 {
+                    items.push(p1(1 + k));
+                }
+                items.push(Item::Op(*op));
+            }
+            items.extend(marker(1));
+            items.push(Item::Op(STOP));
+            Program {
+                family: format!("stack-effects[{}]", chunk.iter().map(|b| format!("{b:02x}")).collect::<Vec<_>>().join(",")),
+                code:   assemble(&items),
+            }
+        })
+        .collect()
+}
+
+pub fn stack_effects(rng: &mut StdRng) -> Program {
+    let mut pool: Vec<u8> = Vec::new();
+    pool.extend(0x01..=0x0b);
+    pool.extend(0x10..=0x1d);
+    pool.push(0x20);
+    pool.extend(0x30..=0x48);
+    pool.extend(0x50..=0x55);
+    pool.extend([0x58, 0x59, 0x5a, 0x5b, 0x5f]);
+    pool.extend(0x80..=0x9f);
+    pool.extend(0xa0..=0xa4);
+    pool.extend([0xf0, 0xf1, 0xf2, 0xf4, 0xf5, 0xfa]);
+    let mut items = Vec::new();
+    let mut names = Vec::new();
+    for _ in 0..rng.gen_range(3..9) {
+        let op = *pool.choose(rng).unwrap();
+        for _ in 0..8 {
+            items.push(p1(rng.gen_range(1..33)));
+        }
+        items.push(Item::Op(op));
+        names.push(format!("{op:02x}"));
+    }
+    items.extend(marker(1));
+    items.push(Item::Op(STOP));
+    Program {
+        family: format!("stack-effects[{}]", names.join(",")),
+        code:   assemble(&items),
+    }
+}
+
 pub fn any(rng: &mut StdRng) -> Program {
-    match rng.gen_range(0..13) {
+    match rng.gen_range(0..15) {
+        14 => stack_effects(rng),
+        13 => code_edges(rng),
         12 => reentry(rng),
         10 | 11 => spaghetti(rng),
         0..=3 => blocks(rng),
